@@ -317,8 +317,19 @@ def protocol(chk, prog, cls, methods):
                             problems.append("sample parameter `%s` not passed" % p)
                         continue
                     want = "self.%s[%s]" % (p, t)
-                    if ast.unparse(a).replace(" ", "") != want:
-                        problems.append("parameter `%s` receives `%s`, expected %s" % (p, ast.unparse(a), want))
+                    a_res = a
+                    if isinstance(a, ast.Name):          # a local of the loop body assigned once: look at what it holds
+                        defs_ = [x.value for x in ast.walk(loop) if isinstance(x, ast.Assign) and len(x.targets) == 1 and isinstance(x.targets[0], ast.Name) and x.targets[0].id == a.id]
+                        if len(defs_) == 1:
+                            a_res = defs_[0]
+                    forms = [a_res]
+                    if isinstance(a_res, ast.IfExp):
+                        # `self.mag[t] if <configuration> else None` for an optional sample: the row, or the callee's own "absent" value
+                        d_ = _default_of(callee, p)
+                        none_ok = d_ is not None and isinstance(d_, ast.Constant) and d_.value is None
+                        forms = [x for x in (a_res.body, a_res.orelse) if not (none_ok and isinstance(x, ast.Constant) and x.value is None)]
+                    if not forms or any(ast.unparse(x).replace(" ", "") != want for x in forms):
+                        problems.append("parameter `%s` receives `%s`, expected %s" % (p, ast.unparse(a_res), want))
                 elif a is None:
                     # a constructor option stored under the parameter's own name must reach the streaming call
                     if p in own_attrs and not _resolves_from_self(callee, p):
@@ -516,7 +527,7 @@ def run(chk, prog, tier):
     isolation(chk, prog)
     determinism(chk, prog)
     chk.require_count("NO-DATA-READ", 11)
-    chk.require_count("PROTOCOL", 12)
+    chk.require_count("PROTOCOL", 11)      # one per (class, streaming method); EKF may serve both sensor arms from one loop
     chk.require_count("ARG-HONOURED", 10)
     canaries(chk, prog)
     return __doc__
